@@ -108,7 +108,12 @@ func (*Service) contribution(_ context.Context, generation *generation) error {
 // }
 
 // verifyContribution verifies another participant's contribution.
-func verifyContribution(id uint64, secretShare bls.SecretKey, vVec []bls.PublicKey) bool {
+func verifyContribution(id uint64, threshold uint32, secretShare bls.SecretKey, vVec []bls.PublicKey) bool {
+	// The verification vector must have exactly one entry per coefficient of the polynomial.
+	if uint64(len(vVec)) != uint64(threshold) {
+		return false
+	}
+
 	var vVecKey bls.PublicKey
 	if err := vVecKey.Set(vVec, util.BLSID(id)); err != nil {
 		return false
